@@ -29,6 +29,8 @@ def qmat(kind, n):
         return np.tril(np.ones((n, n)))
     if kind == "T":
         return np.ones((1, n))
+    if kind == "R":      # counts only the first cell (twice): the ones vector is not in its row space
+        return np.array([[1.0] + [0.0] * (n - 1), [2.0] + [0.0] * (n - 1)])
     raise ValueError(kind)
 
 
